@@ -125,10 +125,12 @@ type RunResult struct {
 type workItem struct {
 	prefix []Decision
 	model  smt.Model
+	pins   map[string]uint64 // inputs given concrete values on this path and its descendants
 }
 
 // Run is the shared state of one harness exploration.
 type Run struct {
+	pinned  map[string]bool
 	cfg     Config
 	mu      sync.Mutex
 	cond    *sync.Cond
@@ -158,6 +160,9 @@ type explorer struct {
 	modelOK bool
 	// model handed over with the work item: valid once the prefix has been replayed
 	pendingModel smt.Model
+	ufs          []ufApp // applications of uninterpreted functions on this path (md5)
+	pins         map[string]uint64
+	ufOnly       bool
 	tape    []TapeEntry
 	reached []string
 	asserts []string
@@ -213,7 +218,7 @@ func (ex *explorer) queue(alt Decision, m smt.Model) {
 	copy(p, ex.decs)
 	p[len(ex.decs)] = alt
 	ex.forks++
-	ex.run.push(workItem{prefix: p, model: m})
+	ex.run.push(workItem{prefix: p, model: m, pins: ex.pins})
 }
 
 func (ex *explorer) assertPC(t *smt.Term) {
@@ -629,6 +634,136 @@ func (ex *explorer) fail(kind, id, msg string, m smt.Model) {
 		Decisions: append([]Decision(nil), ex.decs...), Trace: append([]string(nil), ex.trace...)})
 }
 
+// ufApp is one application of a function kept uninterpreted (MD5 of symbolic input): fresh
+// output bytes for the given input bytes.
+type ufApp struct {
+	in, out []*smt.Term
+	real    func([]byte) []byte
+}
+
+// refineUF makes a counterexample respect the real function behind an uninterpreted one.
+// The model's inputs are run through the real function; if the model's outputs agree, or the
+// query is still satisfiable with these inputs and the real outputs pinned, the (adjusted)
+// model is a genuine counterexample. Otherwise this path fails for the uninterpreted function
+// only: the candidate inputs (this model's and up to two more) are each re-executed from the
+// start with those inputs concrete -- the real function is then computed, whichever path that
+// takes -- and the assertion is left undecided on this path (reported inconclusive unless it
+// turns out infeasible). At most maxPinned such re-executions are started per run.
+const maxPinned = 12
+
+func (ex *explorer) refineUF(extra *smt.Term, m smt.Model, id string) (smt.Model, bool) {
+	if len(ex.ufs) == 0 || m == nil {
+		return m, true
+	}
+	c := ex.ctx
+	and := func(a, b *smt.Term) *smt.Term {
+		if a == nil {
+			return b
+		}
+		return c.And(a, b)
+	}
+	blocked := extra
+	for round := 0; round < 3; round++ {
+		memo := map[int]uint64{}
+		pin, differs, agrees := c.Bool(true), c.Bool(false), true
+		vars := map[string]*smt.Term{}
+		for _, u := range ex.ufs {
+			in := make([]byte, len(u.in))
+			for j, t := range u.in {
+				v, _ := c.Eval(t, m, memo)
+				in[j] = byte(v)
+				eq := c.Cmp(smt.OEq, t, c.BV(uint64(in[j]), t.W))
+				pin = c.And(pin, eq)
+				differs = c.Or(differs, c.Not(eq))
+				collectVars(t, vars, map[int]bool{})
+			}
+			want := u.real(in)
+			for j, t := range u.out {
+				if v, _ := c.Eval(t, m, memo); byte(v) != want[j] {
+					agrees = false
+				}
+				pin = c.And(pin, c.Cmp(smt.OEq, t, c.BV(uint64(want[j]), t.W)))
+			}
+		}
+		if agrees {
+			return m, true
+		}
+		// the same inputs with the real outputs, on this path
+		r, m2 := ex.check(and(blocked, pin), true)
+		if r == smt.Sat {
+			return m2, true
+		}
+		// re-execute with these inputs concrete
+		pins := map[string]uint64{}
+		for k, v := range ex.pins {
+			pins[k] = v
+		}
+		sig := ""
+		for name, t := range vars {
+			v, _ := c.Eval(t, m, memo)
+			pins[name] = v
+		}
+		for _, e := range ex.tape {
+			if v, ok := pins[e.Name]; ok {
+				sig += fmt.Sprintf("%s=%d,", e.Name, v)
+			}
+		}
+		if !ex.run.spawnPinned(sig, pins) {
+			break
+		}
+		blocked = and(blocked, differs)
+		r, m3 := ex.check(blocked, true)
+		if r == smt.Unsat {
+			if round == 0 {
+				return nil, false // the only inputs on this path do not fail under the real function
+			}
+			break
+		}
+		if r != smt.Sat {
+			break
+		}
+		m = m3
+	}
+	ex.inconclusive("assertion " + id + " fails on a path only for MD5 as an uninterpreted function; candidate inputs were re-executed with the real function")
+	ex.ufOnly = true
+	return nil, true
+}
+
+func collectVars(t *smt.Term, out map[string]*smt.Term, seen map[int]bool) {
+	if seen[t.ID] {
+		return
+	}
+	seen[t.ID] = true
+	if t.Op == smt.OVar {
+		out[t.Name] = t
+		return
+	}
+	for _, a := range t.Args {
+		collectVars(a, out, seen)
+	}
+}
+
+// spawnPinned starts a re-execution from the start with the given inputs concrete (once per
+// distinct assignment, at most maxPinned per run).
+func (r *Run) spawnPinned(sig string, pins map[string]uint64) bool {
+	r.mu.Lock()
+	if r.pinned == nil {
+		r.pinned = map[string]bool{}
+	}
+	if r.pinned[sig] {
+		r.mu.Unlock()
+		return true
+	}
+	if len(r.pinned) >= maxPinned {
+		r.mu.Unlock()
+		return false
+	}
+	r.pinned[sig] = true
+	r.mu.Unlock()
+	r.push(workItem{pins: pins})
+	return true
+}
+
 // Assert checks that c holds for every value satisfying the path condition.
 func (ex *explorer) Assert(id string, c *smt.Term, msg string) {
 	ex.asserts = append(ex.asserts, id)
@@ -640,6 +775,14 @@ func (ex *explorer) Assert(id string, c *smt.Term, msg string) {
 		var m smt.Model
 		if ex.ensureModel() {
 			m = ex.model
+		}
+		m, feasible := ex.refineUF(nil, m, id)
+		if !feasible {
+			panic(pathEnd{"infeasible"}) // no input takes this path under the real function
+		}
+		if ex.ufOnly {
+			ex.ufOnly = false
+			panic(pathEnd{"uf-only"})
 		}
 		ex.fail("assert", id, msg, m)
 		panic(pathEnd{"assert-failed"})
@@ -654,7 +797,13 @@ func (ex *explorer) Assert(id string, c *smt.Term, msg string) {
 		ex.proved[id]++
 	case smt.Sat:
 		// later assertions of the path are still judged independently (no assumption is added)
-		ex.fail("assert", id, msg, m)
+		if m2, feasible := ex.refineUF(neg, m, id); !feasible {
+			ex.proved[id]++
+		} else if ex.ufOnly {
+			ex.ufOnly = false
+		} else {
+			ex.fail("assert", id, msg, m2)
+		}
 	default:
 		ex.inconclusive("solver unknown on assertion " + id)
 	}
@@ -865,7 +1014,7 @@ func Explore(prog *ssa.Program, pkg *ssa.Package, fname string, cfg Config) *Run
 }
 
 func runPath(r *Run, prog *ssa.Program, pkg *ssa.Package, fn *ssa.Function, item workItem, solver *smt.Solver, wk *workerCtx) {
-	ex := &explorer{run: r, ctx: smt.NewCtx(), solver: solver, prefix: item.prefix, proved: map[string]int{}, concOK: map[string]int{}}
+	ex := &explorer{run: r, ctx: smt.NewCtx(), solver: solver, prefix: item.prefix, pins: item.pins, proved: map[string]int{}, concOK: map[string]int{}}
 	if len(item.prefix) > 0 {
 		ex.pendingModel = item.model
 	}
